@@ -378,6 +378,10 @@ def step? (s : String) : Option Step :=
   | "e" :: rest => (ratPairList? (":".intercalate rest)).map .exclude
   | _ => none
 
+/-- `calculate_power_spectrum` computes only on a one-dimensional numpy array (`isinstance(data, np.ndarray)` and
+`data.ndim == 1`); anything else is refused with `TypeError` before a spectrum is made. -/
+def pipelineDataOk (isArray : Bool) (ndim : Nat) : Bool := isArray && ndim == 1
+
 def mkSpec (f p : List Rat) (nppb : Nat) : Spec :=
   { freq := f, power := p, nppb := nppb, sampleRate := 1, totalSampledUsed := 1,
     fitLo := 0, fitHi := 0, excluded := [] }
@@ -390,6 +394,7 @@ def showFP (s : Spec) : String := showRatList s.freq ++ " " ++ showRatList s.pow
   `c10.exclude [lo:hi,…] [f…] [p…]`      → `[f…] [p…]`
   `c10.block k nppb [f…] [p…]`           → `[f…] [p…] nppb`
   `c10.pipeline lo hi [lo:hi,…] k [f…] [p…]` → `[f…] [p…] nppb`
+  `c10.pipelinearg isarray(0|1) ndim`    → `ok` or `TypeError` (the data argument of calculate_power_spectrum)
   `c10.binwidth fs tsu nppb`             → rational
   `c10.withspec n m nppb`                → `nppb` or `ValueError`
   `c10.peaks nppb baseline cutoff [flat…] [f…]` → `[i:j,…] [lo:hi,…]` or an exception name
@@ -438,6 +443,9 @@ def handle : List String → Option String
     if k = 0 then return "Error:ZeroDivisionError"
     let s := (mkSpec f p 1).pipeline lo hi rs k
     some (showFP s ++ " " ++ toString s.nppb)
+  | ["c10.pipelinearg", isarr, ndim] => do
+    let isarr ← nat? isarr; let ndim ← nat? ndim
+    some (if pipelineDataOk (isarr ≠ 0) ndim then "ok" else "TypeError")
   | ["c10.binwidth", fs, tsu, nppb] => do
     let fs ← rat? fs; let tsu ← nat? tsu; let nppb ← nat? nppb
     if tsu = 0 then none
